@@ -266,7 +266,7 @@ fn mutated() -> impl Strategy<Value = String> {
         3 => gen::num_expr(small).prop_map(|e| render_canonical(&e)),
         3 => super::c04::tree().prop_map(|e| render_canonical(&e)),
         2 => super::c02::pair().prop_map(|p| render_canonical(&super::c02::expr_of(&p))),
-        2 => super::c18::exprs().prop_map(|es| es.iter().map(|e| render_canonical(e)).collect::<Vec<_>>().join(" ")),
+        2 => super::c18::exprs_plain().prop_map(|es| es.iter().map(|e| render_canonical(e)).collect::<Vec<_>>().join(" ")),
     ];
     (base, prop::collection::vec((0u8..9, any::<u16>(), soup_token()), 0..=2)).prop_map(|(b, muts)| {
         let mut toks: Vec<String> = b.split(' ').map(|t| t.to_string()).collect();
